@@ -360,6 +360,22 @@ impl Litep2p {
             transport_manager.register_transport(SupportedTransport::Tcp, Box::new(transport));
         }
 
+        // install the scripted transport in place of TCP (verification seam)
+        #[cfg(litep2p_verif)]
+        if let Some(factory) = litep2p_config.verif_transport.take() {
+            let handle = transport_manager.transport_handle(Arc::clone(&litep2p_config.executor));
+            let (transport, transport_listen_addresses) =
+                factory(crate::verif::TransportHandle::new(handle));
+
+            for address in transport_listen_addresses {
+                transport_manager.register_listen_address(address.clone());
+                listen_addresses.push(address.with(Protocol::P2p(local_peer_id.into())));
+            }
+
+            transport_manager
+                .register_transport(SupportedTransport::Tcp, crate::verif::adapt(transport));
+        }
+
         // enable quic transport if the config exists
         #[cfg(feature = "quic")]
         if let Some(config) = litep2p_config.quic.take() {
@@ -466,6 +482,11 @@ impl Litep2p {
             .tcp
             .is_some()
             .then(|| supported_transports.insert(SupportedTransport::Tcp));
+        #[cfg(litep2p_verif)]
+        config
+            .verif_transport
+            .is_some()
+            .then(|| supported_transports.insert(SupportedTransport::Tcp));
         #[cfg(feature = "quic")]
         config
             .quic
@@ -552,6 +573,20 @@ impl Litep2p {
                 _ => {}
             }
         }
+    }
+}
+
+#[cfg(litep2p_verif)]
+impl Litep2p {
+    /// Next event of the connection manager with connection ids preserved (verification seam;
+    /// [`Litep2p::next_event`] is this stream with the ids dropped).
+    pub async fn verif_next_event(&mut self) -> Option<crate::verif::TransportEvent> {
+        self.transport_manager.next().await.map(Into::into)
+    }
+
+    /// Read-only dump of the connection manager (verification seam).
+    pub fn verif_snapshot(&self) -> crate::verif::ManagerSnapshot {
+        self.transport_manager.verif_snapshot()
     }
 }
 
